@@ -19,7 +19,7 @@ RULE = (
     "evaluated; distinct = distinct mesh spec"
 )
 REQUIRED_COUNTERS = ["lap_eq_div_grad", "div_sums_to_zero", "boundary_flux_integral", "symmetric_nsd", "nullspace_constants", "covariant_hermitian", "gradient_exact_linear", "ref_entrywise", "live_covariant_hermitian", "smoothed_mesh_checks"]
-CASE_TIMEOUT = {"quick": 300, "thorough": 900}
+CASE_TIMEOUT = {"quick": 600, "thorough": 3600}
 ASSUMPTIONS = [
     "numpy/scipy dense eigensolvers are correct",
     "geometry arrays of the mesh object (edges, lengths, dual lengths, areas) are taken as the definition of the operators here; their own correctness is C07",
@@ -130,12 +130,12 @@ def run_case(spec):
         if note("covariant_hermitian", h, 1e-12 * float(np.abs(MA).max())):
             viol("covariant_laplacian_not_hermitian", {"asym": h, "amp": amp})
         # entrywise vs reference
-        Lref = fv.laplacian(n, em.edges, em.edge_lengths, em.dual_edge_lengths, a, em.directions, A)
+        Lref = (fv.laplacian if n <= 400 else fv.laplacian_fast)(n, em.edges, em.edge_lengths, em.dual_edge_lengths, a, em.directions, A)
         d = fv.max_abs_diff(LA, Lref)
         if note("ref_entrywise", d, 1e-11 * abs(Lref).max()):
             viol("covariant_laplacian_ne_reference", {"max_abs_diff": d, "amp": amp})
         GA = ops.build_gradient(mesh, link_exponents=A)
-        Gref = fv.gradient(n, em.edges, em.edge_lengths, em.directions, A)
+        Gref = (fv.gradient if n <= 400 else fv.gradient_fast)(n, em.edges, em.edge_lengths, em.directions, A)
         d = fv.max_abs_diff(GA, Gref)
         if note("ref_entrywise", d, 1e-11 * abs(Gref).max()):
             viol("covariant_gradient_ne_reference", {"max_abs_diff": d, "amp": amp})
@@ -195,7 +195,7 @@ def run_case(spec):
     # 10. smoothing returns new meshes that obey the identities and leaves the source mesh untouched
     if mesh.voronoi_polygons is not None and spec["mesh"]["kind"] != "explicit":
         sites_before = np.array(mesh.sites, copy=True)
-        for it in (1, 2, 3):
+        for it in ((1, 2, 3) if n <= 500 else (2,)):
             try:
                 sm = mesh.smooth(it)
             except ValueError as exc:
